@@ -103,3 +103,59 @@ def standard_spec(full=True):
 
 
 EMPTY_OK = {b"/empty.txt", b"/emptydir"}
+
+
+# ---------------------------------------------------------------------------
+# names tree (C05 / C06): every name of the alphabet as every kind of object
+# ---------------------------------------------------------------------------
+
+NAMES = [b"plain", b"sp ace", b"a&b", b"a?b", b"a|b", b"a#b", b"a%41", b"\xc3\xa9", b"\xae", b"a+b", b"a;b=c", b"a:b", b"a\\b",
+         b'q"uote', b"lt<gt>", b"a'b", b" lead", b"-dash", b"a%2Fb", b"a=b&c=d", b"UPPER", b"a,b", b"(p)", b"[b]", b"{c}", b"a^b`c", b"a$b", b"a@b", b"a!b", b"a*b"]
+URL_ONLY_NAMES = [b"tab\tname", b"lf\nname", b"trail "]
+
+
+def names_spec(names=None, full=True, depth2=True):
+    """One directory per kind, each holding every name as that kind, plus
+    dir-name x child-name pairs."""
+    names = names or NAMES
+    spec = {}
+    files = {}
+    noext = {}
+    dirs = {}
+    htmls = {}
+    mboxes = {}
+    maildirs = {}
+    gmdirs = {}
+    gmfiles = {}
+    zips = {}
+    for n in names:
+        files[n + b".txt"] = b"text of " + n + b"\n"
+        noext[n] = b"noext " + n + b"\n"
+        dirs[n] = {b"child.txt": b"child of " + n + b"\n"}
+        htmls[n + b".html"] = b"<html><head><title>Title of " + n.replace(b"<", b"&lt;").replace(b"&", b"&amp;") + b"</title></head><body>x</body></html>\n"
+        mboxes[n + b".mbox"] = MBOX
+        maildirs[n] = {b"cur": {b"1:2,S": MAIL1}, b"new": {}, b"tmp": {}}
+        gmdirs[n] = {b"gophermap": b"info in " + n + b"\n0Rel\trel.txt\n1Up\t/\n", b"rel.txt": b"rel\n"}
+        gmfiles[n + b".gophermap"] = b"map file\n0F\t/target.txt\n"
+        if full:
+            zips[n + b".zip"] = make_zip([("m.txt", b"member\n"), ("d/e.txt", b"e\n")])
+    spec[b"target.txt"] = b"link target\n"
+    spec[b"f_files"] = files
+    spec[b"f_noext"] = noext
+    spec[b"f_dirs"] = dirs
+    spec[b"f_html"] = htmls
+    spec[b"f_mbox"] = mboxes
+    spec[b"f_maildir"] = maildirs
+    spec[b"f_gmdirs"] = gmdirs
+    spec[b"f_gmfiles"] = gmfiles
+    if full:
+        spec[b"f_zips"] = zips
+        # names inside an archive
+        spec[b"names.zip"] = make_zip([(n.decode("utf-8", "surrogateescape").encode("utf-8", "surrogateescape").decode("latin-1").encode("cp437", "replace").decode("cp437") + ".txt", b"z\n")
+                                       for n in names if all(32 <= c < 127 for c in n)])
+    if depth2:
+        pairs = {}
+        for d in names:
+            pairs[d] = {c + b".txt": b"pair\n" for c in names}
+        spec[b"f_pairs"] = pairs
+    return spec
